@@ -210,6 +210,28 @@ func (h *Harness) ExpandCases(tier string) ([]Case, error) {
 	if len(h.Params) == 0 {
 		return []Case{{Label: ""}}, nil
 	}
+	if strings.Contains(gen, "|") {
+		// alternatives: union of cartesian products
+		var all []Case
+		seen := map[string]bool{}
+		for _, alt := range strings.Split(gen, "|") {
+			cs, err := h.expandOne(alt)
+			if err != nil {
+				return nil, err
+			}
+			for _, c := range cs {
+				if !seen[c.Label] {
+					seen[c.Label] = true
+					all = append(all, c)
+				}
+			}
+		}
+		return all, nil
+	}
+	return h.expandOne(gen)
+}
+
+func (h *Harness) expandOne(gen string) ([]Case, error) {
 	vals := map[string][]uint64{}
 	for _, part := range strings.Split(gen, ";") {
 		part = strings.TrimSpace(part)
